@@ -554,8 +554,43 @@ pub fn cmd_explore(opt: &HashMap<String, String>) -> i32 {
             };
             let alpha_len = sd.alpha.len();
             let mut ex = Explorer::new(&ctx_s, vec![sd.root.clone()], sd.alpha.clone());
-            let result = ex.run(&eo);
+            let mut result = ex.run(&eo);
+            // hidden state without a fault (see phase 5), from the states of this seed: the
+            // closure cannot build tombstones, so state that only a tombstone-triggered
+            // rebuild consumes is carried on from here
+            let mut hidden_s: Vec<(usize, Vec<Op>, Vec<u8>)> = std::mem::take(&mut result.novel).into_iter().filter(|(_, _, k)| is_hidden_t(k)).collect();
+            let seed_clean = result.violations.is_empty() && result.machinery.is_none();
             phases.push(Phase { name: format!("seed {}", sd.root.label), result, roots: vec![sd.root.clone()], alpha_len, nkeys, fault_props: 0, u: u.clone() });
+            if !hidden_s.is_empty() && seed_clean && !fault_only && sd.len <= 64 {
+                hidden_s.sort_by_key(|(_, h, _)| h.len());
+                let mut per_kind: std::collections::HashMap<std::mem::Discriminant<Op>, usize> = Default::default();
+                hidden_s.retain(|(_, h, _)| {
+                    let n = per_kind.entry(std::mem::discriminant(h.last().unwrap())).or_insert(0);
+                    *n += 1;
+                    *n <= 3
+                });
+                hidden_s.truncate(12);
+                let roots_h: Vec<Root> = hidden_s.iter().map(|(_, h, _)| Root { cfg: sd.root.cfg, prefix: h.clone(), label: format!("hidden-state root in seed {}", sd.root.label) }).collect();
+                let mut exh = Explorer::new(&ctx_s, roots_h.clone(), sd.alpha.clone());
+                let eoh = ExploreOpts {
+                    threads,
+                    max_depth: 2,
+                    max_states: 30_000_000,
+                    wall_cap_s: wall_cap,
+                    state_opts: Some(StateOpts { exhaustive_pat_len, owning: false, clone, clone_product: 0, trap: false, borrow_patterns: false }),
+                    transitions: true,
+                    max_violations: 200,
+                    extra: None,
+                    phase: 6,
+                    skips: skips.clone(),
+                    depth_cap: depth_caps.get(&6).copied(),
+                    heavy_depth_limit: Some(0),
+                    owning_by_shape: false,
+                    distinct_roots: true,
+                };
+                let result = exh.run(&eoh);
+                phases.push(Phase { name: format!("hidden-state continuation in seed {} (roots never merged, depth 2)", sd.root.label), result, roots: roots_h, alpha_len, nkeys, fault_props: 0, u: u.clone() });
+            }
         }
     }
 
@@ -661,7 +696,7 @@ pub fn cmd_explore(opt: &HashMap<String, String>) -> i32 {
             *stats.classes.entry(c).or_insert(0) += 1;
         }
         let cfg = Config { hk: HK::Const, cap: None, limit: usize::MAX };
-        let root = Root { cfg, prefix: vec![], label: "10 instantiations of LruCache<K, V, S> x {constant, spread} hasher x {unbounded, tight} start".into() };
+        let root = Root { cfg, prefix: vec![], label: "11 instantiations of LruCache<K, V, S> x {constant, spread} hasher x {unbounded, tight} start".into() };
         let violations = r
             .violations
             .into_iter()
@@ -684,7 +719,7 @@ pub fn cmd_explore(opt: &HashMap<String, String>) -> i32 {
             fault_states: 0,
             known: Default::default(),
         };
-        phases.push(Phase { name: format!("instantiation variants: all operation sequences <= {depth} over ~60 operations (incl. clone_from, failing reservations, forgotten drain) for 10 instantiations (plain data with varying size estimate and non-bitwise Clone, String/&str, PathBuf / &Path in another spelling, zero-sized key, zero-sized value, 32-byte aligned value, 200-byte inline value, default hasher, drop glue on one side); sequences of 1 and of <= 2 operations are judged in passes of their own first"), result, roots: vec![root], alpha_len: 60, nkeys, fault_props: 0, u: u.clone() });
+        phases.push(Phase { name: format!("instantiation variants: all operation sequences <= {depth} over ~60 operations (incl. clone_from, failing reservations, forgotten drain) for 11 instantiations (a hash builder whose clone hashes differently, plain data with varying size estimate and non-bitwise Clone, String/&str, PathBuf / &Path in another spelling, zero-sized key, zero-sized value, 32-byte aligned value, 200-byte inline value, default hasher, drop glue on one side); sequences of 1 and of <= 2 operations are judged in passes of their own first"), result, roots: vec![root], alpha_len: 60, nkeys, fault_props: 0, u: u.clone() });
     }
 
     // C16 on the other instantiations (C05: the order of what remains after a caught panic)
